@@ -307,7 +307,7 @@ func compareTable(r *core.Run, h *header) {
 	for g, k := range keyOf {
 		goName[k] = g
 	}
-	var mism, engMism, unmodelled []string
+	mism, engMism, unmodelled := []string{}, []string{}, []string{}
 	compared := 0
 	for f, year := range h.Years {
 		g, ok := goName[f]
